@@ -408,8 +408,12 @@ func NewLockCommandDataFromBytes(data []byte, commandStage uint8, commandType ui
 				propertyLen += len(property.Value) + 3
 			}
 		}
-		dataLen += propertyLen + 2
-		dataFlag |= LOCK_DATA_FLAG_CONTAINS_PROPERTY
+		if propertyLen > 0xffff {
+			properties, propertyLen = nil, 0
+		} else {
+			dataLen += propertyLen + 2
+			dataFlag |= LOCK_DATA_FLAG_CONTAINS_PROPERTY
+		}
 	}
 	buf := make([]byte, dataLen+4)
 	buf[0], buf[1], buf[2], buf[3] = byte(dataLen), byte(dataLen>>8), byte(dataLen>>16), byte(dataLen>>24)
@@ -443,8 +447,12 @@ func NewLockCommandDataFromString(data string, commandStage uint8, commandType u
 				propertyLen += len(property.Value) + 3
 			}
 		}
-		dataLen += propertyLen + 2
-		dataFlag |= LOCK_DATA_FLAG_CONTAINS_PROPERTY
+		if propertyLen > 0xffff {
+			properties, propertyLen = nil, 0
+		} else {
+			dataLen += propertyLen + 2
+			dataFlag |= LOCK_DATA_FLAG_CONTAINS_PROPERTY
+		}
 	}
 	buf := make([]byte, dataLen+4)
 	buf[0], buf[1], buf[2], buf[3] = byte(dataLen), byte(dataLen>>8), byte(dataLen>>16), byte(dataLen>>24)
